@@ -57,6 +57,8 @@ func checkC06(c *Ctx) {
 		return
 	}
 	c06Recursion(c, m)
+	c.rule("C06.R11", "no write into a nil map: every map field of a module struct that is written through (m[k] = v, m[k]++) only ever receives a map that exists (make, literal, or a local bound to one); a struct literal that leaves it out is completed by a store in the same function", 3)
+	c06NilMaps(c)
 	c.rule("C06.R10", "premises decided elsewhere: the markup stage that Next calls for every line and option never panics and keeps attributes inside the text (C15.R1–R5)", 5)
 	dependsOn(c, "C06.R10", "Next parses the markup of every line and option it returns: a panic there is a panic of Next", "C15.R1", "C15.R2", "C15.R3", "C15.R4", "C15.R5")
 	info := m.pkg.TypesInfo
